@@ -69,6 +69,15 @@ TOP = None
 NONE = NoneV()
 
 
+class Refused:
+    """every feasible path of the call ends in `raise` / a failing assert"""
+    def __repr__(self):
+        return "REFUSED"
+
+
+REFUSED = Refused()
+
+
 class Infeasible(Exception):
     pass
 
@@ -381,12 +390,21 @@ class Interp:
                 a = [NONE, args[0], NONE]
             return SliceV(*a)
         if name == "isinstance" and len(args) == 2:
+            tn = ast.unparse(e.args[1])
             if isinstance(args[0], SliceV):
-                tn = ast.unparse(e.args[1])
                 return BoolV(True if "slice" in tn and "Number" not in tn else (False if "slice" not in tn else None))
+            if isinstance(args[0], Iv):
+                names = {x.id if isinstance(x, ast.Name) else x.attr for x in ast.walk(e.args[1]) if isinstance(x, (ast.Name, ast.Attribute))}
+                num = names & {"Number", "int", "Integral", "integer"}
+                return BoolV(True if num else (False if names <= {"slice", "list", "tuple", "ndarray", "np", "str"} else None))
             return BoolV(None)
         if name == "len":
+            a0 = e.args[0] if e.args else None
+            if isinstance(a0, ast.Attribute) and isinstance(a0.value, ast.Name) and a0.value.id == env.get("__self__"):
+                return self.self_attrs.get("len:" + a0.attr, TOP)
             return TOP
+        if name in ("np.min", "np.max", "np.amin", "np.amax") and len(args) == 1:
+            return args[0] if isinstance(args[0], Iv) else TOP       # one abstract row stands for every row
         # constructor / method of the analysed class
         selfn = env.get("__self__")
         if isinstance(fn, ast.Attribute) and isinstance(fn.value, ast.Name) and fn.value.id == selfn:
@@ -394,7 +412,10 @@ class Interp:
                 return Obj(args, {k.arg: self.ev(k.value, env, depth) for k in e.keywords}, e)
             m = self.cls.lookup(fn.attr)
             if m is not None and depth < self.max_depth and isinstance(m.node, ast.FunctionDef):
-                return self.run(m, args, {k.arg: self.ev(k.value, env, depth) for k in e.keywords}, depth + 1)
+                r = self.run(m, args, {k.arg: self.ev(k.value, env, depth) for k in e.keywords}, depth + 1)
+                if r is REFUSED:
+                    raise Infeasible()        # the callee raises on every path: so does this path of the caller
+                return r
         if isinstance(fn, ast.Attribute) and fn.attr == "__class__":
             return TOP
         return TOP
@@ -419,9 +440,12 @@ class Interp:
             else:
                 env[p] = TOP
         outs = []
-        self.block(node.body, env, depth, outs)
+        n_unknown = len(self.unknown_reasons)
+        fell = self.block(node.body, env, depth, outs)
+        if fell:
+            outs.append(NONE)          # falling off the end returns None
         if not outs:
-            return TOP
+            return REFUSED if len(self.unknown_reasons) == n_unknown else TOP
         r = outs[0]
         for o in outs[1:]:
             if isinstance(r, Obj) or isinstance(o, Obj):
@@ -448,7 +472,16 @@ class Interp:
         return envs
 
     def stmt(self, s, env, depth, outs):
-        if isinstance(s, ast.Expr) or isinstance(s, ast.Pass):
+        try:
+            return self._stmt(s, env, depth, outs)
+        except Infeasible:
+            return []
+
+    def _stmt(self, s, env, depth, outs):
+        if isinstance(s, ast.Pass):
+            return [env]
+        if isinstance(s, ast.Expr):
+            self.ev(s.value, env, depth)
             return [env]
         if isinstance(s, ast.Return):
             outs.append(self.ev(s.value, env, depth) if s.value is not None else NONE)
